@@ -116,8 +116,21 @@ func checkC12(replay string) {
 		spec := gen.Spec{Seed: r.Seed + 12000, Index: pi, Hostile: true, Tests: pi%3 == 0, Excluded: false, Impl: pi%4 == 0, PerPair: 8}
 		cfg := gen.DefaultCfg()
 		// a few @ignore comments (by node, so every variant carries the same ones): layout must not change what they cover
+		withHeaders := !strings.Contains(vars[vi].name, "move") // a file-level @ignore stays with its file, not with a moved declaration
 		sprinkle := func(bt *gen.Built) {
 			irng := base.NewRand(r.Seed, fmt.Sprintf("c12-ign-%d", pi))
+			if withHeaders {
+				// file-level @ignore comments before the package clause: blank lines and ordinary comments inserted between
+				// them and the clause (noise variants) must not change their scope
+				hrng := base.NewRand(r.Seed, fmt.Sprintf("c12-hdr-%d", pi))
+				for _, pk := range bt.P.Pkgs {
+					for _, f := range pk.Files {
+						if len(f.Decls) > 0 && hrng.Chance(1, 4) {
+							f.AddHeaderIgnore(bt.P, base.Pick(hrng, []string{"IMM", "CTOR01", "TONL", "PKGO01, PKGO03", "imm02, ctor", "TONL01"}))
+						}
+					}
+				}
+			}
 			for _, st := range gen.Statements(bt.P) {
 				if len(st.N.Pre) == 0 {
 					continue
